@@ -22,6 +22,9 @@ P = {
  "C04": ("must-lockset, who-may-write, defer/edge-guard path rules and linear normal form of the admission test",
          "All obligations (O1-O4) of a complete structural argument for the connection limit: lock discipline on the counter, single increment/decrement with the same key and amount, release registered by defer exactly on the admitted edge before the handler with nothing in between, reject iff count>=max with no store on the reject edge. Every path of the three functions is enumerated on the SSA CFG.",
          "Assumes extractors/handlers do not touch limiter state; amount>1 extractors may overshoot by amount-1 (statement counts requests). Trusted: go/ssa, analyser, sync.Mutex.", "3/C04"),
+ "C09": ("interprocedural flow-sensitive must-lockset with access paths (Eraser-style, static), lock-pairing path rule",
+         "Every exported method of every public handler / mutex-owning type is a concurrent entry point; every read and write of receiver-reachable state on every call path (module callees in context, goroutines, String() reached through %v logging) is recorded with the locks certainly held, and every conflicting pair must share an excluding lock; readers that clean up count as writers; objects behind interfaces that are not concurrency-safe by contract count as written by each call; every Lock reaches its Unlock on all paths. Level 'other': a static race lint with stated unsoundness, exhaustive over call paths where tests sample schedules.",
+         "NOT decided: atomicity across two critical sections, races inside user-supplied objects, aliasing through two different access paths, values with undetermined path (counted in evidence). Exempt by name: Wrap/Fallback/SetCookieValue wiring setters, SetDefaultWeight, test-only clock provider. Known finding K2 (CircuitBreaker.String unsynchronised) is printed as KNOWN-FINDING. Trusted: go/ssa, VTA, analyser, table of concurrency-safe interfaces.", "3/C09"),
 }
 
 NA = {}
